@@ -520,10 +520,13 @@ def gen_checklost(rng):
     steps = list(h["steps"])
     cur = ws
     for _ in range(rng.randint(2, 3)):
-        flags = sorted({c["flag"] for t in cur["targets"].values() for c in t.get("checks", [])})
-        if not flags:
+        own = sorted({c["flag"] for t in cur["targets"].values() for c in t.get("checks", []) if any(c["flag"] == p_ for p_, _ in t.get("sets", []))})
+        ext = sorted({c["flag"] for t in cur["targets"].values() for c in t.get("checks", [])} - set(own))
+        if not own and not ext:
             break
-        f = rng.choice(flags)
+        # mostly conditions the target's own command re-establishes (the forced run then succeeds and is cached again)
+        f = rng.choice(own) if own and (not ext or rng.random() < 0.75) else rng.choice(ext)
+        keep = cur["files"].get(f)
         w2 = copy.deepcopy(cur)
         w2["files"].pop(f, None)
         writes = [[f, None]]
@@ -535,6 +538,12 @@ def gen_checklost(rng):
         cur = w2
         steps.append(bstep())
         if rng.random() < 0.5:
+            steps.append(bstep())
+        if f in ext and keep is not None:
+            w3 = copy.deepcopy(cur)
+            w3["files"][f] = keep
+            steps.append(estep(w3, "establish external condition %s" % f))
+            cur = w3
             steps.append(bstep())
     h2 = dict(h, steps=steps)
     h2["tags"] = ["checklost"]
